@@ -420,6 +420,13 @@ fn sweep_cases(seed: u64, tier: &str, bins: &Binaries, scratch: Option<&str>) ->
         vec!["--min-repetitions", "-1", "a"],
         vec!["--min-substring-length", "99999999999", "a"],
         vec!["--min-repetitions=0", "a"],
+        vec!["--min-repetitions", "00", "a"],
+        vec!["--min-repetitions", "+0", "a"],
+        vec!["--min-substring-length", " 0", "a"],
+        vec!["--min-repetitions=", "a"],
+        vec!["--min-repetitions", "4294967296", "a"],
+        vec!["--min-substring-length", "1.5", "a"],
+        vec!["-e", "--with-surrogates", "--min-substring-length", "0", "a"],
         vec!["--with-surrogates", "a"],
         vec!["-r", "--min-repetitions", "0", "-f", PLANNED_PATH],
         vec!["--min-substring-length", "0", "-"],
